@@ -70,6 +70,9 @@ package lexer
 //@   model cached := tl.writep
 //@   model depth := len(tl.pointers)
 //@   model saved(i int) := tl.pointers[i]
+//@   model curFrom := tl.stack[tl.readp].from
+//@   model curTo := tl.stack[tl.readp].to
+//@   model curErr := tl.stack[tl.readp].err != nil
 //
 // ---- Lexer -------------------------------------------------------------------------------------
 // Character classes, from the Readme / operator tables.
